@@ -264,6 +264,11 @@ class Planner:
             return [a], ({"mf": "contiguous"} if r.random() < 0.3 else {})
         if fn == "copy_":
             # both directions: the primary is the source half of the time
+            if r.random() < 0.06:
+                # a source that does not fit: the float copy_ refuses it and leaves the destination alone
+                c = [s for s, x in self.pool.items() if s != a and x.z.dtype == z.dtype]
+                if c:
+                    return [a, r.choice(c)], {"expect_refusal": True}
             b = self.partner(sh, dname, kind=r.choice(["plain", "act", None]))
             if b is None:
                 return None
@@ -374,7 +379,7 @@ class Planner:
                 zs = [z.clone() if j == 0 and fn == "copy_" else z for j, z in enumerate(zs)]
                 out = OPS[fn][1](zs, op, build_aux(op, zs))
             except Exception:
-                if r.random() < 0.08:  # keep a few invalid float programs: the executor must skip them
+                if r.random() < 0.08 or op.get("expect_refusal"):  # keep a few invalid float programs: the executor must skip them
                     op["dst"] = [self.free_slot()]
                     self.ops.append(op)
                     return True
